@@ -262,6 +262,16 @@ def run(ctx):
     for f in ex:
         inits = [fmt(ir.unwrap(e["expr"])) for _, _, e in f.all_elems() if e["kind"] == "init"]
         ctx.check(any("make_string(forward(args)...)" in s0 for s0 in inits), "R08.5", f, "message-is-make_string", "exception is initialised with %s" % inits, f)
+    # one way from the arguments of raise(...) to the message: every overload named raise hands its whole pack to the exception's constructor
+    rz = [f for f in prog.fns.values() if f.has_cfg and f.is_pattern and f.qual.endswith("except::raise")]
+    ctx.need("R08.5", "raise overloads (patterns)", len(rz), 1)
+    for f in rz:
+        body = [fmt(e["expr"]) for _, _, e in f.roots()]
+        packs = [p0 for p0 in f.params if "..." in (p0.get("type") or "")]
+        whole = len(f.params) == 1 and len(packs) == 1 and any("forward(%s)..." % packs[0]["name"] in b0 for b0 in body) and len(body) == 1
+        ctx.check(whole, "R08.5", f, "raise-forwards-whole-pack:%s" % ",".join((p0.get("type") or "?") for p0 in f.params),
+                  "the overload raise(%s) does not hand its complete argument pack to the exception constructor (%s): for the calls it is chosen for - e.g. a formatter as the first argument - the message "
+                  "is no longer the concatenation of all arguments" % (", ".join((p0.get("type") or "?") for p0 in f.params), body), f, why_ok=body[0] if body else "")
     ctx.rule("R08.6", "no member of the formatter / exception machinery is declared noexcept and reaches a raise (an arity error has to be catchable whichever way the text is obtained)")
     from .common import rule_noexcept
     rule_noexcept(ctx, "R08.6", lambda f: f.file.endswith(("format/format.hpp", "except/exception.hpp", "except/raise.hpp")), "an arity mismatch has to raise", minimum=8)
